@@ -157,6 +157,11 @@ pub unsafe fn s_inner_try_send<RW: QueueRW<Pay>>(n: usize, k: usize, mpmc: bool)
     let drops0 = pay::DROPS;
     let clones0 = pay::CLONES;
     HW_NOTIFY_CALLS = 0;
+    HW_NOTIFY_STAMP = 0;
+    // watch the tag cell of the slot that an accepted send publishes
+    rt::WATCH_ADDR = [0, 0, &(*w.q.data.add(a0.slot_of(a0.head))).wraps as *const AtomicUsize as usize, 0];
+    rt::WATCH_STAMP = [0; 4];
+    rt::WATCH_HITS = [0; 4];
 
     let r = tx.try_send(p);
 
@@ -181,6 +186,7 @@ pub unsafe fn s_inner_try_send<RW: QueueRW<Pay>>(n: usize, k: usize, mpmc: bool)
         let ok = r.is_ok();
         post_send::<RW>(&a0, &a1, r, v, pser, drops0, clones0, mpmc);
         assert!(!(ok && notify) || HW_NOTIFY_CALLS >= 1, "C08/C14: the waiter is notified when a value was accepted and the strategy needs notification");
+        assert!(!(ok && notify) || HW_NOTIFY_STAMP > rt::WATCH_STAMP[2], "C08/C14: the waiter must be notified AFTER the value was published (a waiter woken earlier re-checks, finds nothing and sleeps for good)");
         let uni1 = is_uni(tx.state.get());
         assert!(!uni1 || a0.writers == 1, "C12: single-writer mode only while this is the sole sender");
         kani_cover!(!uni && uni1, "switch back to single-writer reachable");
@@ -362,10 +368,15 @@ pub unsafe fn s_drop_send<RW: QueueRW<Pay>>(n: usize, k: usize, mpmc: bool) {
     let tok = tx.token;
     let nt0 = w.q.manager.vf_ntokens();
     HW_NOTIFY_CALLS = 0;
+    HW_NOTIFY_STAMP = 0;
+    rt::WATCH_ADDR = [0, 0, &w.q.writers as *const AtomicUsize as usize, 0];
+    rt::WATCH_STAMP = [0; 4];
+    rt::WATCH_HITS = [0; 4];
     drop(tx);
     let a1 = w.observe();
     assert!(a1.writers == a0.writers - 1, "C07: dropping a sender unregisters exactly one sender");
     assert!(a1.writers > 0 || HW_NOTIFY_CALLS >= 1, "C07/C08/C14: dropping the last sender notifies the waiter (the end has been reached)");
+    assert!(a1.writers > 0 || HW_NOTIFY_STAMP > rt::WATCH_STAMP[2], "C07/C08: the waiter must be notified AFTER the sender count dropped (woken earlier it still sees a live sender and sleeps for good)");
     assert!(w.q.manager.vf_ntokens() == nt0 - 1 && !w.q.manager.vf_has_token(tok), "C16/C17: the dropped handle's token is unregistered");
     assert!(a1.head == a0.head && a1.tail_cache == a0.tail_cache && same_except_slot(&a0, &a1, usize::MAX) && same_streams(&a0, &a1));
     mem::forget(w);
